@@ -132,7 +132,10 @@ def run(ctx: Ctx) -> bool:
     n = 0
     try:
         same_print = [(False, True, vc, False), (False, True, vl, True), (False, True, vc, False)]  # decided per type, not per printed form
-        for layout in (port_specs, port_specs[::-1], port_specs[:1], [], same_print, same_print[::-1][1:]):
+        # one node with a copyable output that is used twice next to a dangling array (ports 0 and 3 land on node 0): a test on the
+        # NUMBER of links of a node instead of each port's own links misses the dangling one
+        fan_out = [(2, True, qb, False), (True, True, qb, False), (True, True, qb, False), (False, True, arr, True)]
+        for layout in (port_specs, port_specs[::-1], port_specs[:1], [], same_print, same_print[::-1][1:], fan_out):
             n += 1
             nodes, data, ports, kinds, linked, want = [], {}, {}, {}, {}, []
             parent = Tok("parent_node", __ident__=1)
@@ -153,7 +156,7 @@ def run(ctx: Ctx) -> bool:
                     pt = Tok(f"node{i}.out{j}", __ident__=1)
                     ports[nd].append(pt)
                     kinds[pt] = Tok("kind", __class__="ValueKind" if val else "OrderKind", ty=ty) if val else Tok("kind", __class__="OrderKind")
-                    linked[pt] = [Tok("some_input_port")] if lk else []
+                    linked[pt] = [Tok(f"some_input_port{q}") for q in range(int(lk))]  # 0 = dangling, 1 = connected, 2 = a copied value used twice
                     if not lk and val and need:
                         want.append((pt, ty, parent))
             for nd in nodes:
@@ -172,6 +175,12 @@ def run(ctx: Ctx) -> bool:
                 "num_out_ports": lambda recv, a: len(ports[a[0]]),
                 "port_kind": lambda recv, a: kinds[a[0]],
                 "linked_ports": lambda recv, a: list(linked[a[0]]),
+                # other queries a HUGR answers (modelled so that code using them is decided, not skipped)
+                "num_outgoing": lambda recv, a: sum(len(linked[p]) for p in ports[a[0]]),
+                "outgoing_links": lambda recv, a: [(p, list(linked[p])) for p in ports[a[0]] if linked[p]],
+                "num_in_ports": lambda recv, a: 0,
+                "num_incoming": lambda recv, a: 0,
+                "port_type": lambda recv, a: kinds[a[0]].attrs.get("ty"),
                 "add_node": add_node,
                 "add_link": lambda recv, a, links=links: links.append((a[0], a[1])),
             })
